@@ -103,6 +103,41 @@ pub fn case(ctx: &Ctx, w: usize, h: usize, k: u64, rep: &mut Report) {
             rep.distinct.insert(fnv64(&pb));
         }
     }
+    // a picture of another size on the same decoder: a new intra picture, or a (disposable) predicted
+    // picture made of intra macroblocks only - its planes must have the size its own header states
+    if rng.chance(1, 3) {
+        let (w2, h2) = if flavour.sorenson() { (1 + rng.below(90) as usize, 1 + rng.below(90) as usize) } else { (4 * (1 + rng.below(22) as usize), 4 * (1 + rng.below(22) as usize)) };
+        let mut c2 = gen_cfg(&mut rng, flavour, w2, h2);
+        c2.tr = cfg.tr.wrapping_add(1);
+        c2.wide_levels = false;
+        let mut pic2 = gen_intra(&mut rng, &c2);
+        let kind = rng.below(3) as u8;
+        match &mut pic2.hdr {
+            crate::model::syntax::Hdr::Sor(hd) => hd.ptype = kind,
+            crate::model::syntax::Hdr::Std(hd) => {
+                if kind == 1 {
+                    hd.inter = true;
+                    if let Some(pl) = hd.plus.as_mut() {
+                        pl.ptype = 1;
+                    }
+                }
+            }
+        }
+        let b2 = pic2.encode();
+        rep.evaluations += 1;
+        let coords2 = || J::obj().set("property", "C13").set("tier", ctx.tier_name()).set("seed", ctx.seed).set("stage", ctx.stage.clone()).set("w", w).set("h", h).set("k", k).set("what", format!("second picture {}x{} kind {}", w2, h2, kind));
+        match dec.decode(&b2) {
+            Outcome::Ok => {
+                if pipeline(&dec, w2, h2, c2.quant, rep, &coords2) {
+                    rep.count("resized_pictures_postprocessed");
+                    rep.count(&format!("resized:{}", ["intra", "predicted-all-intra", "disposable-all-intra"][kind as usize]));
+                    rep.distinct.insert(fnv64(&b2));
+                }
+            }
+            Outcome::Panic { msg, loc } => rep.violation(format!("panic@{}", loc), format!("{}x{} picture after a {}x{} one panicked: {}", w2, h2, w, h, msg), coords2()),
+            Outcome::Err(e) => rep.count(&format!("skipped:resized:{}", e)),
+        }
+    }
 }
 
 pub fn ladder_case(ctx: &Ctx, w: usize, h: usize, k: usize, rep: &mut Report) {
@@ -156,6 +191,26 @@ pub fn run(ctx: &Ctx) -> (Report, String) {
         if ctx.is_main() {
             rep.require("ladder_pictures_postprocessed", dims.len() as u64 * 9 / 10);
         }
+        // area ladder: sample counts beyond 2^24 / 2^26 with odd factors (anything computed through
+        // 32-bit floats or 32-bit products goes wrong first here); skipped under the sanitizers
+        if ctx.is_main() {
+            let mut huge: Vec<(usize, usize)> = vec![(8194, 8194), (16386, 4102)];
+            if ctx.tier == Tier::Thorough {
+                huge.extend([(8194, 8198), (4098, 16390), (32770, 2054), (65535, 1031), (1029, 65535), (11587, 11587)]);
+            }
+            let n0 = dims.len();
+            let hr = par_shards(huge.len(), ctx.threads.min(4), |k| {
+                let mut r = Report::new();
+                let (w, h) = huge[k];
+                crate::mon::guarded(&mut r, || J::obj().set("property", "C13").set("kind", "ladder").set("w", w).set("h", h), |r| ladder_case(ctx, w, h, n0 + k, r));
+                if r.get("ladder_pictures_postprocessed") > 0 {
+                    r.count("huge_pictures_postprocessed");
+                }
+                r
+            });
+            rep.merge(Report::merge_all(hr));
+            rep.require("huge_pictures_postprocessed", huge.len() as u64);
+        }
         for (w, h) in [(128, 96), (176, 144), (352, 288), (320, 240), (160, 120)] {
             for k in 0..ks {
                 case(ctx, w, h, k, &mut rep);
@@ -167,6 +222,9 @@ pub fn run(ctx: &Ctx) -> (Report, String) {
     if ctx.is_main() && ctx.scale_pct == 100 {
         rep.require("pictures_postprocessed", (maxd * maxd * ks as usize) as u64 * 95 / 100);
         rep.require("p_pictures_postprocessed", 1000);
+        for k in ["resized:intra", "resized:predicted-all-intra", "resized:disposable-all-intra"] {
+            rep.require(k, 300);
+        }
     }
     (rep, rule())
 }
